@@ -92,6 +92,8 @@ def _compare(out, label, g1, g2, requested, before, dtype, scale):
                 continue
             if gb is None:
                 gb = torch.zeros_like(a) if before[i] is None else before[i]
+            if not out.check(tuple(ga.shape) == tuple(a.shape), f"{label}:grad-shape", f"leaf {i}: .grad of shape {tuple(ga.shape)}"):
+                continue
             err = float((ga.double() - gb.double()).abs().max()) if ga.numel() else 0.0
             tol = REL[dtype] * scale
             out.within(err, tol, f"{label}:differs-from-autograd",
